@@ -39,16 +39,19 @@ StartExpr(s, P) ==
     [] s = "strs"    -> Id("xs")                       \* the whole []string goes to the sink
     [] s = "anys"    -> Id("ys")
 
-DataFor(P) == [s |-> S(P), h |-> H(P), hr |-> HTMLer(P), u |-> Rec([Name |-> S(P), Html |-> H(P)]),
+DataFor(P) == [s |-> S(P), h |-> H(P), h2 |-> H(<<"LT", "i", "GT">>), hr |-> HTMLer(P), u |-> Rec([Name |-> S(P), Html |-> H(P)]),
                m |-> M([k |-> S(P)]), xs |-> AT(<<S(P)>>, "strs"), ys |-> A(<<S(P)>>)]
 
-Steps == {"let", "catL", "catR", "arridx", "arrall", "hashidx", "fnid", "fnemit", "goid", "par"}
+Steps == {"let", "catL", "catR", "catRawR", "catRawL", "catHtmlR", "arridx", "arrall", "hashidx", "fnid", "fnemit", "goid", "par"}
 \* a step turns carrier expression e into [pre: statements to put before, e: the new carrier]
 ApplyStep(st, i, e) ==
   LET vn == "v" \o Digit(i)  fn == "f" \o Digit(i) IN
   CASE st = "let"     -> [pre |-> <<Let(vn, e)>>, e |-> Id(vn)]
     [] st = "catL"    -> [pre |-> <<>>, e |-> Par(Bin("+", Str(<<>>), e))]
     [] st = "catR"    -> [pre |-> <<>>, e |-> Par(Bin("+", e, Str(<<>>)))]
+    [] st = "catRawR" -> [pre |-> <<>>, e |-> Par(Bin("+", e, Call("raw", <<Str(<<>>)>>)))]       \* data + trusted HTML
+    [] st = "catRawL" -> [pre |-> <<>>, e |-> Par(Bin("+", Call("raw", <<Str(<<"r">>)>>), e))]
+    [] st = "catHtmlR" -> [pre |-> <<>>, e |-> Par(Bin("+", e, Id("h2")))]
     [] st = "arridx"  -> [pre |-> <<Let(vn, Arr(<<IntL(0), e>>))>>, e |-> Idx(Id(vn), IntL(1))]
     [] st = "arrall"  -> [pre |-> <<>>, e |-> Arr(<<e>>)]
     [] st = "hashidx" -> [pre |-> <<Let(vn, Hash(<<"k">>, <<e>>))>>, e |-> Idx(Id(vn), Str(<<"k">>))]
@@ -57,7 +60,8 @@ ApplyStep(st, i, e) ==
     [] st = "goid"    -> [pre |-> <<>>, e |-> Call("id", <<e>>)]
     [] st = "par"     -> [pre |-> <<>>, e |-> Par(e)]
 
-Sinks == {"top", "for", "if", "else", "fn", "blk", "blkown", "cfor", "cofdata", "cofdefault", "partial", "nested", "layout", "forfn"}
+Sinks == {"top", "for", "if", "else", "fn", "blk", "blkown", "cfor", "cofdata", "cofdefault", "partial", "nested", "layout", "forfn",
+          "blk0", "blkown0", "cfor0", "cofdata0", "cofdefault0", "fn0", "partial0"}
 Sink(k, e) ==
   CASE k = "top"     -> [prog |-> <<Emit(e)>>, parts |-> EmptyScope]
     [] k = "for"     -> [prog |-> <<Emit(For("", "w", Arr(<<e>>), <<Text(<<"(">>), Emit(Id("w")), Text(<<")">>)>>))>>, parts |-> EmptyScope]
@@ -70,6 +74,14 @@ Sink(k, e) ==
     [] k = "cfor"    -> [prog |-> <<Code(CallB("contentFor", <<Str(<<"c">>)>>, <<Text(<<"c">>), Emit(e)>>)), Text(<<"|">>), Emit(Call("contentOf", <<Str(<<"c">>)>>))>>, parts |-> EmptyScope]
     [] k = "cofdata" -> [prog |-> <<Code(CallB("contentFor", <<Str(<<"c">>)>>, <<Text(<<"c">>), Emit(Id("d"))>>)), Emit(Call("contentOf", <<Str(<<"c">>), Hash(<<"d">>, <<e>>)>>))>>, parts |-> EmptyScope]
     [] k = "cofdefault" -> [prog |-> <<Emit(CallB("contentOf", <<Str(<<"n">>), Hash(<<"d">>, <<e>>)>>, <<Text(<<"d">>), Emit(Id("d"))>>))>>, parts |-> EmptyScope]
+    \* the same sinks with the output tag as the block's only content (no literal text around it)
+    [] k = "blk0"    -> [prog |-> <<Emit(CallB("blk", <<>>, <<Emit(e)>>))>>, parts |-> EmptyScope]
+    [] k = "blkown0" -> [prog |-> <<Emit(CallB("blkown", <<Hash(<<"d">>, <<e>>)>>, <<Emit(Id("d"))>>))>>, parts |-> EmptyScope]
+    [] k = "cfor0"   -> [prog |-> <<Code(CallB("contentFor", <<Str(<<"c">>)>>, <<Emit(e)>>)), Emit(Call("contentOf", <<Str(<<"c">>)>>))>>, parts |-> EmptyScope]
+    [] k = "cofdata0" -> [prog |-> <<Code(CallB("contentFor", <<Str(<<"c">>)>>, <<Emit(Id("d"))>>)), Emit(Call("contentOf", <<Str(<<"c">>), Hash(<<"d">>, <<e>>)>>))>>, parts |-> EmptyScope]
+    [] k = "cofdefault0" -> [prog |-> <<Emit(CallB("contentOf", <<Str(<<"n">>), Hash(<<"d">>, <<e>>)>>, <<Emit(Id("d"))>>))>>, parts |-> EmptyScope]
+    [] k = "fn0"     -> [prog |-> <<Let("g", FnLit(<<>>, <<Emit(e)>>)), Emit(Call("g", <<>>))>>, parts |-> EmptyScope]
+    [] k = "partial0" -> [prog |-> <<Emit(Call("partial", <<Str(<<"p">>), Hash(<<"d">>, <<e>>)>>))>>, parts |-> [p |-> <<Emit(Id("d"))>>]]
     [] k = "partial" -> [prog |-> <<Emit(Call("partial", <<Str(<<"p">>), Hash(<<"d">>, <<e>>)>>))>>, parts |-> [p |-> <<Text(<<"(">>), Emit(Id("d")), Text(<<")">>)>>]]
     [] k = "nested"  -> [prog |-> <<Emit(Call("partial", <<Str(<<"q">>), Hash(<<"d">>, <<e>>)>>))>>,
                          parts |-> [q |-> <<Text(<<"<">>), Emit(Call("partial", <<Str(<<"p">>), Hash(<<"d">>, <<Id("d")>>)>>)), Text(<<">">>)>>,
@@ -120,6 +132,6 @@ EmitCase == res.k = "none" \/
             LET b == Built(sink) IN
             PrintT("CASE " \o ToJson([gen |-> "GenRoutes", src |-> Unparse(b.prog), data |-> DataFor(P),
                                        parts |-> [nm \in DOMAIN b.parts |-> Unparse(b.parts[nm])],
-                                       trusted |-> Trusted(start),
+                                       trusted |-> Trusted(start), payload |-> P,
                                        shape |-> start \o ">" \o JoinNames(steps) \o ">" \o sink, expect |-> Expect(res)]))
 =============================================================================
